@@ -41,7 +41,7 @@ CLAIMS = {
    note="assumes reflect reports true offsets and hseq.Type values are produced by hseq (public struct: clients are an assumption); thorough repeats under GOARCH=386/arm64",
    tech="static analysis: SSA address-term normalisation, unsafe/field-writer censuses over all packages, type-argument consistency on go/types"),
  "C02": dict(cat="other", ref="DESIGN.md section 4, C02",
-   text="Construction census of the lens type, guard dominance and strength (type identity; container must be a struct) on every returning path of NewLens/NewReflector, loud lookups, dynamic *S assertion in Putt/Gett, pointer-strip taint into the offset recursion, interval of len(attr) at every attr[0:N]; 'reads and writes stay inside that field' through the address term of the four accessors and the offset-accumulation rules of the unfolding (shared with C01). Known findings: D1 (pointer-embedded fields accepted) and D3 (16 reslice sites); D2 and D3b were repaired by fix: commits.",
+   text="Construction census of the lens type, guard dominance and strength (type identity; container must be a struct) on every returning path of NewLens/NewReflector, loud lookups, dynamic *S assertion in Putt/Gett, pointer-strip taint into the offset recursion, interval of len(attr) at every attr[0:N]; 'reads and writes stay inside that field' through the address term of the four accessors and the offset-accumulation rules of the unfolding (shared with C01); positional hand-over of names / focus types by the ForProductN / ForSpectrumN / NewN families and exact first-match lookups (shared with C01 / C03). Known findings: D1 (pointer-embedded fields accepted) and D3 (16 reslice sites); D2 and D3b were repaired by fix: commits.",
    note="panic messages and reflect's behaviour are not decided",
    tech="static analysis: who-may-construct census, dominance of guard edges on cut-point paths, interval analysis, taint of reflect .Elem() results"),
  "C03": dict(cat="other", ref="DESIGN.md section 4, C03",
@@ -50,7 +50,7 @@ CLAIMS = {
    tech="static analysis: counted-loop recognition, loop-carried value provenance, path constraints on SSA terms"),
 
  "C05": dict(cat="other", ref="DESIGN.md section 4, C05",
-   text="Per-iteration event constraints of every sequential stage, decided on all cut-point paths of the single stage goroutine (Map/FMap/Filter/TakeWhile/Take/Partition/Fold/ForEach/Void/Seq/ToSeq), Take's budget by interval analysis, Fold's accumulator provenance, one goroutine per stage, outputs closed on every exit; the wrappers built by Lift/Pure/LiftF/Try/TryF apply the user's function exactly once per call and return its result unchanged, Pure's closure analysed as re-entrant (its own captured state unknown on entry). The list-image claim for every capacity and interleaving follows on paper from single goroutine + FIFO + exactly-once-per-iteration; schedules are not enumerated.",
+   text="Per-iteration event constraints of every sequential stage, decided on all cut-point paths of the single stage goroutine (Map/FMap/Filter/TakeWhile/Take/Partition/Fold/ForEach/Void/Seq/ToSeq), Take's budget by interval analysis, Fold's accumulator provenance, one goroutine per stage, outputs closed on every exit; the wrappers built by Lift/Pure/LiftF/Try/TryF apply the user's function exactly once per call and return its result unchanged, Pure's closure analysed as re-entrant (its own captured state unknown on entry); Map / FMap enter the error hand-off exactly when the function reported an error. The list-image claim for every capacity and interleaving follows on paper from single goroutine + FIFO + exactly-once-per-iteration; schedules are not enumerated.",
    note="assumes user functions terminate and do not touch the channels; Take's n >= 0; trusted: go/ssa, path engine, Go channel FIFO. Not decided: nothing is observed at run time.",
    tech="static analysis: cut-point path enumeration over SSA with event lists, branch polarities and infeasible-path pruning; interval analysis"),
  "C06": dict(cat="other", ref="DESIGN.md section 4, C06",
@@ -62,7 +62,7 @@ CLAIMS = {
    note="closed world: F/FF have unexported methods; trusted: go/ssa, path engine",
    tech="static analysis: path rules on the error branch + summaries of interface implementations (closed world) + sibling cross-check"),
  "C09": dict(cat="other", ref="DESIGN.md section 4, C09",
-   text="fork workers satisfy the per-iteration constraint of their pipe sibling (same rule template), receive only through one range loop, store to no captured variable (static no-data-race form), pool counting (Add = spawn trip count = par = accounted capacities), closes dominated by wg.Wait, C06 rule set on workers and closer, delegations forward to pipe with arguments in order, pipef maps kinds. Completion orders / race detector are dynamic and not decided.",
+   text="fork workers satisfy the per-iteration constraint of their pipe sibling (same rule template), receive only through one range loop, store to no captured variable (static no-data-race form), pool counting (Add = spawn trip count = par = accounted capacities), closes dominated by wg.Wait, C06 rule set on workers and closer, delegations forward to pipe with arguments in order, pipef maps kinds, the completion signal of ForEach / Void is ordered after every worker by the WaitGroup, a worker that meets a failing element hands it to catch and goes on or leaves as catch says, the constructors of package fork build the error-mode kind they promise. Completion orders / race detector are dynamic and not decided.",
    note="trusted: go/ssa, path engine, Go channel semantics (one receiver per value)",
    tech="static analysis: sibling cross-check of path constraints, who-may-write census on captured cells, counted-loop trip counts"),
  "C10": dict(cat="other", ref="DESIGN.md section 4, C10",
@@ -70,7 +70,7 @@ CLAIMS = {
    note="assumes the monoid is associative/commutative with Empty as identity (premise); the genuine defect D7 (zero-value accumulator) was repaired by a fix: commit",
    tech="static analysis: reaching-definition/provenance of the accumulator over phis and cells, counted-loop trip counts"),
  "C11": dict(cat="other", ref="DESIGN.md section 4, C11",
-   text="Unfold: send(seed) precedes the single Apply(seed), result becomes next seed; Emit: index from 0, +1 on every back edge, value = Apply(i), exactly one time.Sleep(frequency) before each application; closing rules; the closed-world catch implementations give up on cancellation (a Try function that keeps failing cannot hold the stage after cancel). Clock statements (k-th value not before k ticks) are NOT decided, only the pacing shape.",
+   text="Unfold: send(seed) precedes the single Apply(seed), result becomes next seed; Emit: index from 0, +1 on every back edge, value = Apply(i), exactly one time.Sleep(frequency) before each application; closing rules; the closed-world catch implementations give up on cancellation (a Try function that keeps failing cannot hold the stage after cancel), Try / TryF build the kind that continues and Lift / Pure / LiftF the kind that stops, the error hand-off is entered exactly when the step function reported an error, the value channel has the requested capacity. Clock statements (k-th value not before k ticks) are NOT decided, only the pacing shape.",
    note="assumes time.Sleep(d) returns no earlier than d",
    tech="static analysis: loop-carried value stepping and must-pass-through over cut-point paths"),
  "C12": dict(cat="other", ref="DESIGN.md section 4, C12",
